@@ -350,6 +350,18 @@ func TestCheck(t *testing.T) {
 			synctest.Test(t, func(t *testing.T) { prosumerTopicsCase(c, k) })
 		})
 	}
+	for k := 0; k < r.Pick(60, 600); k++ {
+		k := k
+		r.Case(fmt.Sprintf("prosumer-failed-poll/%d", k), func(c *h.Case) {
+			synctest.Test(t, func(t *testing.T) { prosumerFaultCase(c, k) })
+		})
+	}
+	for k := 0; k < 24; k++ {
+		k := k
+		r.Case(fmt.Sprintf("resubscribe/%d", k), func(c *h.Case) {
+			synctest.Test(t, func(t *testing.T) { resubscribeCase(c, k) })
+		})
+	}
 	r.Case("offline-after-heartbeat", func(c *h.Case) {
 		synctest.Test(t, func(t *testing.T) { offlineCase(c) })
 	})
@@ -795,6 +807,163 @@ func prosumerTopicsCase(c *h.Case, k int) {
 		}
 	}
 	r.Distinct(fmt.Sprintf("prosumer-topics|%d", k))
+}
+
+// prosumerFaultCase: one poll of a running Prosumer fails at the client before it reaches the
+// broker (a plain error, or the time-out error the Prosumer treats differently). The broker saw
+// nothing, the client stays subscribed and its loop re-subscribes and polls again: everything
+// accepted before, during and after the failure must reach the callback once, in order.
+func prosumerFaultCase(c *h.Case, k int) {
+	r := c.R
+	rng := c.Rand()
+	w := newWorld(pollTimeout, 0)
+	defer w.close()
+	client := core.NewClient("mock://" + w.addr)
+	client.Timeout = 0
+	failAt := int64(2 + k%3)
+	nfail := int64(1 + (k/3)%2)
+	timeoutKind := (k/6)%2 == 0
+	var polls, failed int64
+	client.Use(func(ctx context.Context, name string, args []interface{}, next core.NextInvokeHandler) ([]interface{}, error) {
+		if name == "<" {
+			if n := atomic.AddInt64(&polls, 1); n >= failAt && n < failAt+nfail {
+				atomic.AddInt64(&failed, 1)
+				if timeoutKind {
+					return nil, core.ErrTimeout
+				}
+				return nil, fmt.Errorf("injected poll failure %d", n)
+			}
+		}
+		return next(ctx, name, args)
+	})
+	ps := push.NewProsumer(client, "consumer")
+	ps.RetryInterval = time.Duration(k%4) * 5 * time.Millisecond
+	var mu sync.Mutex
+	var got []int
+	if _, err := ps.Subscribe("t", func(data int) {
+		mu.Lock()
+		got = append(got, data)
+		mu.Unlock()
+	}); err != nil {
+		c.Violation("prosumer-subscribe-failed", err.Error(), nil)
+		return
+	}
+	time.Sleep(time.Millisecond)
+	n := 12 + rng.Intn(20)
+	var sent []int
+	for i := 1; i <= n; i++ {
+		if w.unicast("pub", i, "t", "consumer") {
+			sent = append(sent, i)
+		}
+		// every publish answers one poll, so the failing polls fall among the first few messages
+		time.Sleep([]time.Duration{0, time.Millisecond, 3 * time.Millisecond, 12 * time.Millisecond}[rng.Intn(4)])
+	}
+	time.Sleep(3*pollTimeout + 50*time.Millisecond)
+	ps.Unsubscribe("t")
+	time.Sleep(2*pollTimeout + 50*time.Millisecond)
+	r.Eval(int64(n))
+	mu.Lock()
+	defer mu.Unlock()
+	rep := map[string]interface{}{"scenario": "prosumer-failed-poll", "sent": sent, "callbacks": got, "failed_polls": atomic.LoadInt64(&failed), "fail_at_poll": failAt, "timeout_error": timeoutKind, "polls": atomic.LoadInt64(&polls)}
+	if atomic.LoadInt64(&failed) == 0 {
+		r.Inconclusive("prosumer-failed-poll: the failing poll was never reached")
+		return
+	}
+	if len(sent) != n {
+		c.Violation("refused:prosumer-after-failed-poll", fmt.Sprintf("%d of %d publishes to a subscribed client whose poll failed at the client were refused", n-len(sent), n), rep)
+	}
+	seen := map[int]int{}
+	for _, x := range got {
+		seen[x]++
+	}
+	for _, x := range sent {
+		if seen[x] == 0 {
+			c.Violation("lost:prosumer-after-failed-poll", fmt.Sprintf("message %d accepted but the callback never saw it after a poll failed at the client; callbacks saw %v", x, got), rep)
+			break
+		} else if seen[x] > 1 {
+			c.Violation("delivered-twice:prosumer", fmt.Sprintf("message %d reached the callback %d times", x, seen[x]), rep)
+		}
+	}
+	if !sort.IntsAreSorted(got) {
+		c.Violation("out-of-order:prosumer-callbacks", fmt.Sprintf("a sequential publisher sent %v; the callback saw %v", sent, got), rep)
+	}
+	r.Stat("prosumer_failed_polls", atomic.LoadInt64(&failed))
+	r.Distinct(fmt.Sprintf("prosumer-failed-poll|%d", k))
+}
+
+// resubscribeCase: a subscribed client subscribes to the same topic again (what a Prosumer does
+// after every failed poll) while messages are queued for it or while its poll is parked: the
+// repeated subscribe answers false and nothing queued is lost.
+func resubscribeCase(c *h.Case, k int) {
+	w := newWorld(pollTimeout, 0)
+	defer w.close()
+	hs := &hist{}
+	parked := k%2 == 1
+	before, after := 1+k/2%3, k/6%2
+	other := k/12%2 == 1 // a second topic of the same client is left alone
+	if !w.subscribe("c1", "t") {
+		c.Violation("first-subscribe-false", "the first subscribe of a topic answered false", nil)
+		return
+	}
+	if other {
+		w.subscribe("c1", "u")
+	}
+	rep := map[string]interface{}{"scenario": "resubscribe", "parked_poll": parked, "published_before": before, "published_after": after}
+	publish := func(m int, topic string) {
+		p0 := hs.tick()
+		ok := w.unicast("pub", m, topic, "c1")
+		p1 := hs.tick()
+		hs.mu.Lock()
+		hs.pubs = append(hs.pubs, &pub{msg: m, topic: topic, id: "c1", call: p0, ret: p1, at: time.Since(w.t0), accepted: ok})
+		hs.mu.Unlock()
+		if !ok {
+			c.Violation("refused:subscribed-client", fmt.Sprintf("publish %d to a subscribed client was refused", m), rep)
+		}
+	}
+	record := func() {
+		got, _, _, _, _ := w.poll("c1")
+		seq := hs.tick()
+		hs.mu.Lock()
+		for topic, msgs := range got {
+			for i, m := range msgs {
+				hs.dels = append(hs.dels, deliv{msg: m, topic: topic, id: "c1", seq: seq, pos: i})
+			}
+		}
+		hs.mu.Unlock()
+	}
+	done := make(chan struct{})
+	if parked {
+		go func() { record(); close(done) }()
+		time.Sleep(time.Millisecond)
+		if w.subscribe("c1", "t") {
+			c.Violation("resubscribe-true", "a repeated subscribe of a subscribed topic answered true", rep)
+		}
+		m := 1
+		for ; m <= before; m++ {
+			publish(m, "t")
+		}
+		<-done
+	} else {
+		m := 1
+		for ; m <= before; m++ {
+			publish(m, "t")
+			if other {
+				publish(100+m, "u")
+			}
+		}
+		if w.subscribe("c1", "t") {
+			c.Violation("resubscribe-true", "a repeated subscribe of a subscribed topic answered true", rep)
+		}
+	}
+	for m := 50; m < 50+after; m++ {
+		publish(m, "t")
+	}
+	for i := 0; i < 3; i++ {
+		record()
+	}
+	c.R.Eval(int64(before + after))
+	check(c, hs, w, map[string]bool{key("c1", "t"): true, key("c1", "u"): other}, "resubscribe", rep)
+	c.R.Distinct(fmt.Sprintf("resubscribe|%d", k))
 }
 
 // offlineCase: a client that stops polling beyond the heartbeat goes offline; its pending
